@@ -61,6 +61,20 @@ fn dump_instance(storage: &VariableStorage, id: InstanceId, prefix: &str, depth:
                     let _ = write!(out, " {prefix}{name}[{}]={}", lo + j as i64, show(v));
                 }
             }
+            Value::Array(arr) => {
+                // several dimensions: the element at row-major offset `off` is `name[s1,…,sn]`
+                for (off, v) in arr.elements.iter().enumerate() {
+                    let mut rest = off as i64;
+                    let mut subs: Vec<i64> = vec![0; arr.dimensions.len()];
+                    for (d, (lo, hi)) in arr.dimensions.iter().enumerate().rev() {
+                        let len = hi - lo + 1;
+                        subs[d] = lo + rest % len;
+                        rest /= len;
+                    }
+                    let txt: Vec<String> = subs.iter().map(|x| x.to_string()).collect();
+                    let _ = write!(out, " {prefix}{name}[{}]={}", txt.join(","), show(v));
+                }
+            }
             Value::Struct(sv) => {
                 for (f, v) in sv.fields.iter() {
                     let _ = write!(out, " {prefix}{name}.{f}={}", show(v));
